@@ -48,6 +48,9 @@ type oneShot struct {
 func (o *oneShot) Read(p []byte) (int, error)  { return o.in.Read(p) }
 func (o *oneShot) Write(p []byte) (int, error) { return o.out.Write(p) }
 
+// faultMark: first byte of a raw request that the upstream answers with an oversized length prefix
+const faultMark = 0xEE
+
 func startUpstream() (*upstream, error) {
 	dir, err := os.MkdirTemp("", "verif-c11-")
 	if err != nil {
@@ -92,6 +95,10 @@ func (u *upstream) serve(c net.Conn) {
 		}
 		var reply []byte // complete frame, with its length prefix
 		switch req[0] {
+		case faultMark:
+			// a reply the shim must refuse: a length prefix above the 16 MiB bound (and no body)
+			reply = make([]byte, 4)
+			binary.BigEndian.PutUint32(reply, 16<<20+1)
 		case 1, 11, 13, 17, 18, 19, 22, 23, 25:
 			frame := append(append([]byte{}, hdr[:]...), req...)
 			o := &oneShot{in: bytes.NewReader(frame), out: &bytes.Buffer{}}
@@ -128,7 +135,7 @@ func (u *upstream) close() {
 
 type material struct {
 	privs  []ed25519.PrivateKey
-	pubs   []ssh.PublicKey      // plain keys, id = index+1
+	pubs   []ssh.PublicKey // plain keys, id = index+1
 	ca     ssh.Signer
 	certs  []*ssh.Certificate // hardware certificates, id = 1000 + index+1
 	certOf []int              // certs[i] is over key pubs[certOf[i]]
